@@ -31,6 +31,16 @@ META = {
         "integer contracts of BigInt::multiply (exact product) and BigInt::divide_std_dword<|x|> (a = q d + rem) are ASSUMED in the decomposition units (not yet enforced by a BV unit)",
         "loop-cut representative index: the digit loops are checked at one representative position i; every other digit cell is poisoned, so any other access would be reported",
         "termination of rejection / retry loops is not verified"]),
+    "C07": dict(level="proof", assumptions=GROUP_ASSUME + [
+        "GT in the exponent view: multiply / square_cyclotomic / conjugate / inverse act as +, *2, -, - on discrete logs (C04 for the field operations; Granger-Scott squaring and conj = inverse on the cyclotomic subgroup are trusted)",
+        "frobenius_map(.,k) on GT is exponentiation by q^k, and q = x (mod r) (closed fact by construction of q from x)",
+        "Horner's rule (paper): the per-iteration identity holds for every bit pattern and every accumulator value; loop-cut representative index with poisoned neighbours",
+        "BigInt::multiply / add / compare / divide_std_dword integer contracts (C02 rung) in the integer-level decomposition units",
+        "uniformity of PowersOfX::random: (digits) <-> [0, r) is a bijection on the accepted set (paper, one line); termination of the rejection loops is not claimed"]),
+    "C10": dict(level="proof", assumptions=GROUP_ASSUME + [
+        "random source: function-pointer contract 'writes exactly the n bytes it is given, contents arbitrary' -- every stream is covered, termination of rejection / retry loops is not claimed",
+        "try-and-increment terminates (squares are dense) -- not claimed; the result is the first accepted x by the loop-cut step/exit obligations",
+        "cofactor * (curve point) lies in the order-r subgroup (Lagrange; #E = h*r checked as closed facts in C05/C06 constants)"]),
     "C09": dict(level="proof", assumptions=[
         "TRUSTED STUBS state the C02/C04 contracts of the field layer on plain integers: Fq::read_big_endian = (BE & 2^381-1) mod q, Fq::write_big_endian = BE of a canonical value (asserted), negate / compare on integers mod q; the Montgomery representation is irrelevant to the byte logic",
         "get_point_from_x / is_on_curve / is_in_correct_subgroup_assuming_on_curve are recorded oracles inside the decode units; their own contracts: RING units (get_point_from_x: y in {s,-s}, sign rule; is_on_curve: y^2 = x^3 + b) and the C06 double-and-add unit (multiplication by r)",
